@@ -102,11 +102,13 @@ CLAIMED['C13'] = dict(
    ref="DESIGN.md sections 5 (C13) and 6",
    note=NOTE + "; table rows are program data enumerated completely; HexstrN ('%X' formatting) is ASCII by A-LIB")
 
-_PARSE_NOTE = (NOTE + "; the parser interface contract (PIC, contracts/parsers.py) is assumed for the parser classes whose parse() "
-               "is not under contract here (LatexDelimitedExpressionParser and subclasses, the call parsers, LatexArgumentsParser, "
-               "verbatim/optional/stdarg parsers, LatexExpressionParser.parse's retry loop); collector services that inspect the "
-               "whole node list (get_final_nodelist, pos_start, LatexNodeList.__init__) are assumed; spec.get_node_parser of user "
-               "subclasses is outside (A-DYN)")
+_PARSE_NOTE = (NOTE + "; verified against the parser interface contract (PIC, contracts/parsers.py): parse_content, LatexGeneralNodesParser, "
+               "LatexDelimitedExpressionParser.parse for groups and delimiter math, the macro / environment / specials call parsers, the "
+               "optional one-character marker, the expression parser's single-token step; PIC remains ASSUMED for the parsers without a "
+               "unit (LatexArgumentsParser's own span, verbatim and multi-delimiter parsers, multi-character markers, the standard-argument "
+               "wrapper, LatexExpressionParser.parse's retry loop apart from its bounded C12 unit); collector services get_final_nodelist / "
+               "pos_start are assumed, _update_posposend_from_nodelist (first / last non-None node) is proved; spec.get_node_parser of "
+               "user subclasses is outside (A-DYN)")
 CLAIMED['C01'] = dict(
    text="Proof of the span contracts that carry the tiling, for all strings, positions and parsing-state switches: tokenizer "
         "contracts of C11 (no gap, token fields partition their slice); collector invariant COV (nodes collected so far are "
@@ -138,7 +140,7 @@ CLAIMED['C06'] = dict(
 _L2T_NOTE = NOTE + ("; children of a node enter through the interface contracts of node_to_text / nodelist_to_text (each verified by "
                     "its own unit), the structural induction over the finite node tree is stated, not mechanised; argument lists of at "
                     "most 3 entries in the renderer units; database rows are read by importing the tree under check (A-TABLE); "
-                    "do_fill_text has no unit; see evidence.assumptions")
+                    "see evidence.assumptions")
 
 CLAIMED['C07'] = dict(
    text="Proof that every function of the rendering layer is total and returns a string: each renderer (chars, comment, group, "
